@@ -221,7 +221,9 @@ func c13GrpcFamilies(thorough bool) []*c13Family {
 		case "oversized-snaptoken":
 			req.Snaptoken = c13Big
 		}
-		return &c13Req{Name: "CheckService.BatchCheck", Msg: req, GRPC: func(c *apih.Client, ctx context.Context) (proto.Message, error) { return c.S.CheckC.BatchCheck(ctx, req) }}
+		return &c13Req{Name: "CheckService.BatchCheck", Msg: req, GRPC: func(c *apih.Client, ctx context.Context) (proto.Message, error) {
+			return c.S.CheckC.BatchCheck(ctx, req)
+		}}
 	}})
 
 	// --- Expand
@@ -290,7 +292,9 @@ func c13GrpcFamilies(thorough bool) []*c13Family {
 		case "present-with-paths":
 			req.ExpandMask = &fieldmaskpb.FieldMask{Paths: []string{"object", "no.such.path", ""}}
 		}
-		return &c13Req{Name: "ReadService.ListRelationTuples", Msg: req, GRPC: func(c *apih.Client, ctx context.Context) (proto.Message, error) { return c.S.ReadC.ListRelationTuples(ctx, req) }}
+		return &c13Req{Name: "ReadService.ListRelationTuples", Msg: req, GRPC: func(c *apih.Client, ctx context.Context) (proto.Message, error) {
+			return c.S.ReadC.ListRelationTuples(ctx, req)
+		}}
 	}})
 	fams = append(fams, &c13Family{Route: "grpc-delete", Fields: qFields(false), Build: func(ch map[string]string) *c13Req {
 		q := mkQuery(ch)
@@ -298,7 +302,9 @@ func c13GrpcFamilies(thorough bool) []*c13Family {
 		if q.dep != nil {
 			req.Query = &rts.DeleteRelationTuplesRequest_Query{Namespace: q.dep.Namespace, Object: q.dep.Object, Relation: q.dep.Relation, Subject: q.dep.Subject} //nolint:staticcheck
 		}
-		return &c13Req{Name: "WriteService.DeleteRelationTuples", Msg: req, GRPC: func(c *apih.Client, ctx context.Context) (proto.Message, error) { return c.S.WriteC.DeleteRelationTuples(ctx, req) }}
+		return &c13Req{Name: "WriteService.DeleteRelationTuples", Msg: req, GRPC: func(c *apih.Client, ctx context.Context) (proto.Message, error) {
+			return c.S.WriteC.DeleteRelationTuples(ctx, req)
+		}}
 	}})
 
 	// --- TransactRelationTuples
